@@ -464,18 +464,24 @@ class Autoscaler(AutoscalerBase):
         # Get the objective scaler from cached combined scalers
         obj_meta = self._var_meta['objective']
         obj_name = list(obj_meta.keys())[0]
-        obj_scaler = obj_meta[obj_name]['total_scaler'] or 1.0
+        obj_scaler = obj_meta[obj_name]['total_scaler']
+        if obj_scaler is None:
+            obj_scaler = 1.0
 
         if desvar_multipliers:
             for name, mult in desvar_multipliers.items():
                 # Get the design variable scaler from cached combined scalers
-                scaler = self._var_meta['design_var'][name]['total_scaler'] or 1.0
+                scaler = self._var_meta['design_var'][name]['total_scaler']
+                if scaler is None:
+                    scaler = 1.0
                 mult *= scaler / obj_scaler
 
         if con_multipliers:
             for name, mult in con_multipliers.items():
                 # Get the constraint scaler from cached combined scalers
-                scaler = self._var_meta['constraint'][name]['total_scaler'] or 1.0
+                scaler = self._var_meta['constraint'][name]['total_scaler']
+                if scaler is None:
+                    scaler = 1.0
                 mult *= scaler / obj_scaler
 
         return desvar_multipliers, con_multipliers
